@@ -123,7 +123,7 @@ impl Read for AsyncReadableFile {
         buf: &mut [u8],
     ) -> Poll<Result<usize, async_std::io::Error>> {
         let this = self.get_mut();
-        let bytes_left = this.len() - this.cursor_pos;
+        let bytes_left = this.len().saturating_sub(this.cursor_pos);
         let bytes_read = std::cmp::min(buf.len() as u64, bytes_left);
         if bytes_left == 0 {
             return Poll::Ready(Ok(0));
@@ -136,6 +136,15 @@ impl Read for AsyncReadableFile {
     }
 }
 
+/// `base + offset`, or `None` if the result would be negative or overflow
+fn add_signed(base: u64, offset: i64) -> Option<u64> {
+    if offset >= 0 {
+        base.checked_add(offset as u64)
+    } else {
+        base.checked_sub(offset.unsigned_abs())
+    }
+}
+
 impl Seek for AsyncReadableFile {
     fn poll_seek(
         self: Pin<&mut Self>,
@@ -144,18 +153,19 @@ impl Seek for AsyncReadableFile {
     ) -> Poll<Result<u64, async_std::io::Error>> {
         let this = self.get_mut();
         let new_pos = match pos {
-            SeekFrom::Start(offset) => offset as i64,
-            SeekFrom::End(offset) => this.cursor_pos as i64 - offset,
-            SeekFrom::Current(offset) => this.cursor_pos as i64 + offset,
+            SeekFrom::Start(offset) => Some(offset),
+            SeekFrom::End(offset) => add_signed(this.len(), offset),
+            SeekFrom::Current(offset) => add_signed(this.cursor_pos, offset),
         };
-        if new_pos < 0 || new_pos >= this.len() as i64 {
-            Poll::Ready(Err(async_std::io::Error::new(
-                async_std::io::ErrorKind::InvalidData,
-                "Requested offset is outside the file!",
-            )))
-        } else {
-            this.cursor_pos = new_pos as u64;
-            Poll::Ready(Ok(new_pos as u64))
+        match new_pos {
+            None => Poll::Ready(Err(async_std::io::Error::new(
+                async_std::io::ErrorKind::InvalidInput,
+                "invalid seek to a negative or overflowing position",
+            ))),
+            Some(new_pos) => {
+                this.cursor_pos = new_pos;
+                Poll::Ready(Ok(new_pos))
+            }
         }
     }
 }
